@@ -112,4 +112,15 @@ CLAIMED = {
             "Real races sample schedules (design-level interleavings are exhaustive). Stronghold store not exercised. Crypto "
             "primitives trusted.",
             "DESIGN.md §3 C15"),
+    "C20": ("TLA+ spec Resolver (dedup, dispatch, pending handler futures completed in any order, stop at first error) "
+            "model-checked by TLC over every completion order; every behaviour replayed on both resolver flavours with gated "
+            "futures polled by hand",
+            "model_checking",
+            "TLC explores every (handler table, input list with duplicates/unsupported methods, failing set, completion order) "
+            "behaviour and checks dispatch-by-method, no handler call for unsupported methods, one entry per distinct DID, and "
+            "that the result is a function of the inputs only; each behaviour is replayed with handlers that log (method, DID) "
+            "and return futures the harness completes in exactly TLC's order; the result map, its values, the call log and "
+            "single resolution of every DID are compared; did:jwk resolution over generated public/private JWKs is checked.",
+            "Completion order is controlled at the future level (single polling thread). Iota network handler out of scope.",
+            "DESIGN.md §3 C20"),
 }
